@@ -1021,6 +1021,24 @@ class Interp:
                 return Val("tuple", items=tuple(self._generic_elem(p, tag, s) for p in parts), dep=dep, cfg=cfg)
 
             return ("other", unparse(node)[:40]), elems
+        # literal dictionary iterated by .items() / .keys() / .values() (or directly): unroll exactly
+        dnode = node.args[0] if (enum and isinstance(node, ast.Call) and node.args) else node
+        dmeth = None
+        if isinstance(dnode, ast.Call) and isinstance(dnode.func, ast.Attribute) and dnode.func.attr in ("items", "keys", "values") and not dnode.args:
+            dmeth = dnode.func.attr
+            dval = self.eval(dnode.func.value, st)
+        elif isinstance(dnode, ast.Name):
+            dmeth = "keys"
+            dval = st.env.get(dnode.id)
+        if dmeth and dval is not None and dval.kind == "dict" and dval.items is not None and dval.extra != "open" and dval.obj is None and 0 < len(dval.items) <= 12 and all(isinstance(k_, str) and "<" not in k_ and "?" not in k_ for k_ in dval.items):
+            out_ = []
+            for i_, (k_, v_) in enumerate(dval.items.items()):
+                kv = Val("str", tmpl=k_, cfg=True, cx=repr(k_))
+                el = kv if dmeth == "keys" else (v_ if dmeth == "values" else Val("tuple", items=(kv, v_), cfg=True))
+                if enum:
+                    el = Val("tuple", items=(num(i_, cx=str(i_)), el), cfg=True)
+                out_.append(("lit%d" % i_, el))
+            return "unroll", out_
         idxname = None
         if enum and isinstance(s.target, ast.Tuple) and isinstance(s.target.elts[0], ast.Name):
             idxname = s.target.elts[0].id
@@ -1936,6 +1954,32 @@ class Interp:
             bind[a.vararg.arg] = Val("tuple", items=tuple(pos[len(names):]))
         for k, v in kwargs.items():
             bind[k] = v
+        # a helper that modifies an array parameter in place (p[k] = ..., p *= ...) acts on the
+        # caller's array: give a caller local that has no heap object yet its own object first
+        mutated = set()
+        for x in ast.walk(func.node):
+            if isinstance(x, ast.AugAssign) and isinstance(x.target, ast.Name):
+                mutated.add(x.target.id)
+            elif isinstance(x, (ast.Assign, ast.AugAssign)):
+                for t_ in (x.targets if isinstance(x, ast.Assign) else [x.target]):
+                    b_ = t_
+                    while isinstance(b_, ast.Subscript):
+                        b_ = b_.value
+                    if b_ is not t_ and isinstance(b_, ast.Name):
+                        mutated.add(b_.id)
+        if mutated and isinstance(n, ast.Call):
+            for nm, a_node in zip(names, n.args):
+                if nm in mutated and isinstance(a_node, ast.Name) and a_node.id in st.env:
+                    cur = st.env[a_node.id]
+                    if cur.obj is None and cur.kind == "arr":
+                        fr = self.frames[-1]
+                        oid = ("local", fr.func.qual, a_node.id, 0)
+                        o = Obj(oid, dep=cur.dep, shape=cur.shape, cfg=cur.cfg)
+                        o.dom = dict(cur.dom)
+                        st.heap[oid] = o
+                        nv = cur.with_(obj=oid, view="whole")
+                        st.env[a_node.id] = nv
+                        bind[nm] = nv
         self.emit("call", n, st, callee=func, args=args, kwargs=kwargs, inlined=True)
         self.last_inlined[id(n)] = func
         saved = st.env
